@@ -27,7 +27,7 @@ def main():
     ks = args[1:] or ["1", "2"]
     extra_checks = os.environ.get("EXTRA_CHECKS", "").split()
     wt = "/tmp/wt/" + pid
-    out = os.path.join(wt, "_out")
+    out = os.path.join(wt, os.environ.get("SEED_OUT", "_out"))
     for k in ks:
         patch = os.path.join(out, "patch%s.diff" % k)
         demo = os.path.join(out, "demo%s.py" % k)
